@@ -186,15 +186,19 @@ def generate():
     emit("gen_list_read_neg", "bool", list_neg, False)
 
     def helper_builds_dict():
+        """-> (top-level dictionary built, nested ones built)"""
         fn = astlib.find_func(S, "_read_data_object")
-        b = astlib.body_no_doc(fn)
-        if len(b) != 2 or not isinstance(b[0], ast.If) or not isinstance(b[1], ast.Return):
-            raise ShapeError("_read_data_object: if + return expected")
-        if ast.unparse(b[0].test) != "isinstance(a, KGCall) and a.a is copy_lambda":
-            raise ShapeError("_read_data_object: test is %s" % ast.unparse(b[0].test))
-        if len(b[0].body) != 1 or ast.unparse(b[0].body[0]) != "return klong.eval(a)" or ast.unparse(b[1]) != "return a" or b[0].orelse:
-            raise ShapeError("_read_data_object: body")
-        return True
+        b = [ast.unparse(n) for n in astlib.body_no_doc(fn)]
+        top_only = ["if isinstance(a, KGCall) and a.a is copy_lambda:\n    return klong.eval(a)", "return a"]
+        deep = ["if isinstance(a, KGCall) and a.a is copy_lambda:\n    return {k: _read_data_object(klong, v) for k, v in a.args.items()}",
+                "if isinstance(a, list):\n    return [_read_data_object(klong, x) for x in a]",
+                "if isinstance(a, numpy.ndarray) and a.dtype == object:\n    flat = a.reshape(-1)\n    for j in range(flat.size):\n        flat[j] = _read_data_object(klong, flat[j])",
+                "return a"]
+        if b == top_only:
+            return True, False
+        if b == deep:
+            return True, True
+        raise ShapeError("_read_data_object: body not recognised")
 
     def site(fname):
         fn = astlib.find_func(S, fname)
@@ -202,22 +206,27 @@ def generate():
         if len(calls) != 1:
             raise ShapeError("%s: one kg_read_array call expected" % fname)
         neg = kw_true(calls[0], "read_neg")
+        inl = kw_true(calls[0], "ignore_newline")
         rets = [n for n in ast.walk(fn) if isinstance(n, ast.Return) and n.value is not None
                 and not (isinstance(n.value, ast.Constant) and n.value.value is None)]
         if len(rets) != 1:
             raise ShapeError("%s: one value return expected" % fname)
         r = rets[0].value
-        builds = False
+        builds = (False, False)
         if isinstance(r, ast.Call) and isinstance(r.func, ast.Name) and r.func.id == "_read_data_object" and len(r.args) == 2 \
                 and ast.unparse(r.args[1]) == "a":
             builds = helper_builds_dict()
         elif not (isinstance(r, ast.Name) and r.id == "a"):
             raise ShapeError("%s: returns %s" % (fname, ast.unparse(r)))
-        return neg, builds
+        return neg, builds[0], builds[1], inl
     emit("gen_rs_read_neg", "bool", lambda: site("eval_sys_read_string")[0], False)
     emit("gen_r_read_neg", "bool", lambda: site("eval_sys_read")[0], False)
     emit("gen_rs_builds_dict", "bool", lambda: site("eval_sys_read_string")[1], False)
     emit("gen_r_builds_dict", "bool", lambda: site("eval_sys_read")[1], False)
+    emit("gen_rs_builds_nested", "bool", lambda: site("eval_sys_read_string")[2], False)
+    emit("gen_r_builds_nested", "bool", lambda: site("eval_sys_read")[2], False)
+    emit("gen_rs_ignore_newline", "bool", lambda: site("eval_sys_read_string")[3], False)
+    emit("gen_r_ignore_newline", "bool", lambda: site("eval_sys_read")[3], False)
 
     def r_channel():
         fn = astlib.find_func(S, "eval_sys_read")
@@ -508,7 +517,7 @@ def strings_upto(n):
             yield "".join(t)
 
 
-SPECIAL_STRINGS = [':"', '":', '0c"', "[1 2]", ':"a"', "é€", 'say "hi"', '""', '"""', "a\nb\n", "]]", "[[", " [", "] ", ":{[1 2]}", "\U0001F600x",
+SPECIAL_STRINGS = ["] [", "a] [b", "} {", "[] []", ']"', '" "', "1 -2", "0c", " :", ':"', '":', '0c"', "[1 2]", ':"a"', "é€", 'say "hi"', '""', '"""', "a\nb\n", "]]", "[[", " [", "] ", ":{[1 2]}", "\U0001F600x",
                    "1e5", "-", "\\", "tab\there", ":foo", "0cx", ";;", " ", "a" * 40 + '"' + "b" * 40]
 
 
@@ -630,6 +639,34 @@ def universe(tier, rng):
     # dictionaries (top level): keys atoms, values atoms and lists
     keys = [I(1), I(-2), St("a"), Ch("b"), Sy("s"), R(2.5), St(""), St('k"'), I(10 ** 20), Ch("["), St("}")]
     vals = small + [L(), L(I(1), I(2)), L(I(1), R(2.5)), L(L(I(1)), L(St("}"))), L(St("a"), L(I(1), L(R(0.5)))), I(10 ** 20)]
+    # dictionaries inside lists and inside dictionaries, to depth 4
+    d1 = D((I(1), I(2)))
+    d2 = D((St("a"), L(I(1), R(2.5))), (Sy("s"), St('q"')))
+    nested = [L(d1), L(I(7), d1), L(d1, d2), L(L(d1, I(1)), L(I(2), I(3))), L(L(d1), L(d2)), L(D(), D()), L(St("}"), d1, Ch("{")),
+              D((I(1), d1)), D((Sy("k"), D((I(2), D((I(3), L(I(4), D()))))))), D((St("x"), L(I(1), d2, L(d1)))), L(I(1), L(I(2), L(d2))),
+              D((I(1), D())), L(R(2.5), d1, I(3)), L(L(I(1), I(2)), d1)]
+    for v in nested:
+        yield "nested_dict", "array", v
+    for j in range(100 if tier == "quick" else 1500):
+        def rnd(depth):
+            r = rng.random()
+            if depth == 0 or r < 0.3:
+                return rng.choice(small + [I(10 ** 20)])
+            if r < 0.65:
+                return L(*[rnd(depth - 1) for _ in range(rng.randint(0, 3))])
+            ks = rng.sample(keys, rng.randint(0, 3))
+            return D(*[(k, rnd(depth - 1)) for k in ks])
+        v = rnd(4)
+        # integers outside int64 only directly inside dictionaries (NumPy promotion in lists is not modelled)
+        def fix(v, inlist):
+            if v[0] == "i" and inlist and not -2 ** 63 <= v[1] < 2 ** 63:
+                return I(5)
+            if v[0] == "l":
+                return L(*[fix(e, True) for e in v[1:]])
+            if v[0] == "d":
+                return D(*[(k, fix(x, False)) for k, x in v[1:]])
+            return v
+        yield "nested_dict", "array", fix(v, False)
     yield "dict", "array", D()
     for k in keys:
         for x in vals:
@@ -658,7 +695,23 @@ class Impl:
         self.k["t"] = text
         return self.k(".rs(t)")
 
+    @staticmethod
+    def _has_dict(x):
+        import numpy as np
+        if isinstance(x, dict):
+            return True
+        if isinstance(x, (list, tuple)) or (isinstance(x, np.ndarray) and x.dtype == object and x.ndim > 0):
+            return any(Impl._has_dict(e) for e in x)
+        return False
+
     def match(self, a, b):
+        import numpy as np
+        if not (isinstance(a, dict) or isinstance(b, dict)) and (self._has_dict(a) or self._has_dict(b)):
+            # a list holding dictionaries: element by element (klongpy's ~ compares dictionaries with Python ==, which raises on list values)
+            seq = lambda x: isinstance(x, (list, tuple)) or (isinstance(x, np.ndarray) and x.ndim > 0)
+            if not (seq(a) and seq(b)) or len(a) != len(b):
+                return False
+            return all(self.match(x, y) for x, y in zip(a, b))
         if isinstance(a, dict) or isinstance(b, dict):
             # klongpy's ~ on two dictionaries is Python dict equality and raises on list values (not C11's subject):
             # dictionaries are compared entry by entry, keys as Python objects, values with ~
@@ -766,6 +819,19 @@ def check_float_text(chk, rng):
     import numpy as np
     n = 20000 if chk.tier == "quick" else 100000
     fs = list(REALS)
+    # targeted: subnormals, powers of two around 2^53, the 1e22/1e23 boundary, 17-significant-digit values, negative zero,
+    # integers outside int64 as floats, neighbours of powers of ten
+    fs += [bits_to_float(b) for b in (1, 2, 3, 0xF, 0x000FFFFFFFFFFFFF, 0x0010000000000000, 0x0010000000000001, 0x8000000000000001, 0x800FFFFFFFFFFFFF)]
+    for e in (52, 53, 54, 62, 63, 64, 65, 100, 1023):
+        for d in (-2, -1, 0, 1, 2):
+            b = fbits(2.0 ** e) + d
+            fs += [bits_to_float(b), -bits_to_float(b)]
+    for e in range(-30, 40):
+        b = fbits(float("1e%d" % e))
+        fs += [bits_to_float(b + d) for d in (-1, 0, 1)]
+    fs += [1e22, 1e23, 9.999999999999999e22, 1.0000000000000001e23, 8.41e21, 0.1 + 0.2, 1 / 3, 2 / 3, 5e-324, 1.7976931348623157e308, 0.30000000000000004,
+           9007199254740993.0, 2.0 ** 63, -2.0 ** 63, 2.0 ** 64, 1.8446744073709552e19, 1e19, 123456789012345678.0, -0.0, 0.0, 4.35, 4.3500000000000005,
+           1.1754943508222875e-38, 2.2250738585072009e-308, 6.02214076e23, 1.23456789012345678e-7]
     while len(fs) < n:
         r = rng.random()
         if r < 0.5:
@@ -788,7 +854,8 @@ def check_float_text(chk, rng):
         t = repr(f)
         texts.append(t)
         ok = (fbits(float(t)) == fbits(f) and FLOAT_RE.match(t) is not None and ("." in t or "e" in t)
-              and str(np.float64(f)) == t and str(f) == t)
+              and str(np.float64(f)) == t and str(f) == t
+              and fbits(float("   " + t)) == fbits(f) and fbits(float(t + "  ")) == fbits(f) and fbits(float(" " + t + " ")) == fbits(f))
         chk.count("float_text_checked")
         if not ok and bad is None:
             bad = {"kind": "float-text-assumption", "float_hex": f.hex(), "repr": t, "str_np": str(np.float64(f))}
@@ -931,9 +998,110 @@ def check_form(chk, impl):
                 bad_prop = {"kind": "form-format", "x": show(a), "format": "".join(map(chr, ft)) if ft else None, "form_result": show(y) if y[0] != "o" else ty}
             continue
         mfmt = tuple(o[0][1:]) if o[0][0] == "fmt" else None
-        mres = from_model(o[1][1]) if o[1][0] == "ok" else None
+        mres = from_model(o[1][1]) if o[1][0] == "ok" else None     # (undef) / (err) -> None
         if (mfmt != ft or mres != y) and bad_corr is None:
             bad_corr = {"kind": "form-correspondence", "x": show(a), "impl_format": ft, "model_format": mfmt, "model_form": repr(mres)[:100]}
+    return bad_prop, bad_corr
+
+
+FORM_TEMPLATES = None
+FORM_TEXTS = ["", "5", "-5", "+5", " 5 ", "5  ", "\t5\n", "1_000", "1__0", "_1", "1_", "007", "-007", "- 5", "--5", "1.5", "-1.5e-10", "1e5", "1e+100", "1E5", ".5", "5.", "-0.0",
+              "inf", "nan", "-inf", "Infinity", "1_0.5", " 1.5 ", "1.5 ", "abc", ":abc", "::a", ":", "a", " ", "  ", "ab", "1.5.5", "1 2", "0x10", "0b1", "12345678901234567890123",
+              "-98765432109876543210", "\u00e9", "x y", '"', '""', "[1 2]", "0cx", ":{}", "1e", "e5", "1e400", "-", "+", ".", "1.0", "1.", "00", "5e-324", "9007199254740993"]
+FORM_WIDTHS = [0, 1, 2, 5, -5, 12, -12, 30, -30]
+
+
+def form_result(impl, a, text):
+    """a:$text on the implementation -> ('ok', abstract) | ('undef',) | ('err', class)"""
+    from klongpy.core import KLONG_UNDEFINED
+    impl.k["a"] = a
+    impl.k["b"] = text
+    try:
+        y = impl.k("a:$b")
+    except Exception as e:  # noqa
+        return ("err", type(e).__name__)
+    if y is KLONG_UNDEFINED:
+        return ("undef",)
+    return ("ok", canon(y))
+
+
+def model_fres(o):
+    if o[0] == "ok":
+        return ("ok", from_model(o[1]))
+    return (o[0],)
+
+
+def float_table_for(texts, vals):
+    """fmt/roi tables: the reals of vals plus float(text) for every text float() accepts (keyed by that text)"""
+    fmt, roi = env_tables(*vals)
+    extra = []
+    for t in texts:
+        try:
+            f = float(t)
+        except (ValueError, OverflowError):
+            continue
+        b = fbits(f) if f == f else 0x7FF8000000000000
+        extra.append((b, cps(t)))
+    return extra + fmt, roi
+
+
+def check_form_matrix(chk, impl):
+    """a:$text for every template kind x every text shape; w$x and x:$(w$x) for every atom x every width"""
+    templates = [I(1), I(-7), R(1.5), Ch("x"), St("s"), St(""), Sy("y")]
+    reqs, want = [], []
+    for a in templates:
+        for t in FORM_TEXTS:
+            fmt, roi = float_table_for([t], [a])
+            reqs.append("(formx (%s) (%s) %s (%s))" % (" ".join("(%d (%s))" % (b, " ".join(map(str, tt))) for b, tt in fmt),
+                                                       " ".join("(%d %d)" % q for q in roi), vsx(a), " ".join(str(ord(c)) for c in t)))
+            want.append((a, t, form_result(impl, raw(a), t)))
+    outs = chk.run_model(reqs)
+    bad_corr = bad_prop = None
+    for (a, t, w), o in zip(want, outs):
+        chk.count("evaluations")
+        chk.count("form_matrix")
+        m = model_fres(o)
+        # NaN: compare as "a NaN"
+        def norm(r):
+            if r[0] == "ok" and r[1][0] == "r" and bits_to_float(r[1][1]) != bits_to_float(r[1][1]):
+                return ("ok", ("r", "nan"))
+            return r[:1] if r[0] == "err" else r
+        if norm(m) != norm(w) and bad_corr is None:
+            bad_corr = {"kind": "form-correspondence (template x text)", "template": show(a), "text": t, "impl": repr(w)[:120], "model": repr(m)[:120]}
+    # Format2
+    atoms2 = [I(z) for z in INTS_INNER + INTS_TOP] + [R(f) for f in REALS] + [Ch(c) for c in ALPHA + ["\u00e9"]] \
+        + [St(x) for x in ["", "a", " a ", "12", ":q", "two\nlines", "\u00e9\u20ac"]] + [Sy(x) for x in SYMS]
+    reqs, rows = [], []
+    for x in atoms2:
+        for wd in FORM_WIDTHS:
+            xv = raw(x)
+            impl.k["x"] = xv
+            impl.k["w"] = wd
+            try:
+                t = impl.k("w$x")
+                t = t if isinstance(t, str) else None
+            except Exception as e:  # noqa
+                t = None
+            back = form_result(impl, xv, t) if (t is not None and x[0] in ("i", "r")) else None
+            fmt, roi = float_table_for([t] if t else [], [x])
+            reqs.append("(fmt2 (%s) (%s) (i %d) %s)" % (" ".join("(%d (%s))" % (b, " ".join(map(str, tt))) for b, tt in fmt),
+                                                        " ".join("(%d %d)" % q for q in roi), wd, vsx(x)))
+            rows.append((x, wd, t, back))
+    outs = chk.run_model(reqs)
+    for (x, wd, t, back), o in zip(rows, outs):
+        chk.count("evaluations")
+        chk.count("format2_cases")
+        if x[0] in ("i", "r"):
+            # the property for numbers: x:$(w$x) is x
+            if not (back is not None and back[0] == "ok" and back[1] == x):
+                if bad_prop is None:
+                    bad_prop = {"kind": "form-format2", "x": show(x), "width": wd, "format2": t, "form_result": repr(back)[:100],
+                                "expected": "x:$(w$x) is x"}
+                continue
+        mt = "".join(chr(c) for c in o[0][1:]) if o[0][0] == "some" else None
+        mb = model_fres(o[1]) if o[1][0] != "skip" else None
+        if (mt != t or (back is not None and mb != back)) and bad_corr is None:
+            bad_corr = {"kind": "format2-correspondence", "x": show(x), "width": wd, "impl": t, "model": mt, "impl_form": repr(back)[:80], "model_form": repr(mb)[:80]}
     return bad_prop, bad_corr
 
 
@@ -952,6 +1120,13 @@ def replay_known(chk, impl):
                     "elements real and writes differently", {"expr": '(-1)_[1 2.5 "a"]', "roundtrip": {k: (show(v) if k == "back" and v else v) for k, v in r.items()}})
         return None
     return {"kind": "known finding %s no longer reproduces as the model predicts" % KNOWN_MIXED, "roundtrip": repr(r)[:300]}
+
+
+def normal_py(impl, held):
+    try:
+        return canon(impl.backend.kg_asarray(raw(held))) == held
+    except Exception:  # noqa
+        return True
 
 
 def check_roundtrip(chk, impl, rng, cases=None, sel=0):
@@ -998,6 +1173,11 @@ def check_roundtrip(chk, impl, rng, cases=None, sel=0):
         if not m_writable and bad_corr is None:
             bad_corr = {"kind": "universe value outside the model's `writable`", "value": show(held)}
         if not prop:
+            if not corr and mode == "object" and not normal_py(impl, held):
+                # the known class by the implementation's own kg_asarray, while model and implementation disagree
+                # (something else is broken): not the input to report
+                chk.count("known_class_unconfirmed")
+                continue
             if corr and not m_normal and mode == "object":
                 known_hits += 1
                 chk.count("known_class_mixed_int_real")
@@ -1129,7 +1309,7 @@ def channel_groups(tier, rng):
     for j in range(300 if tier == "quick" else 3000):
         n = rng.randint(3, 6)
         yield [rng.choice(pool) for _ in range(n)], rng.choice([" ", " ", "  ", "   ", "\t", " \t "]), rng.choice(["", "", " ", "  "])
-    # a line break between two objects is the token ";" for kg_read: compared with the model only
+    # line breaks between the objects (one object per line, blank lines)
     for j in range(40 if tier == "quick" else 300):
         n = rng.randint(2, 4)
         yield [rng.choice(pool) for _ in range(n)], rng.choice(["\n", " \n", "\n\n"]), rng.choice(["", "\n"])
@@ -1181,7 +1361,7 @@ def check_channel(chk, impl, rng):
             chk.count("evaluations")
             chk.count("channel_files")
             chk.count("channel_values", len(vals))
-            blank_sep = "\n" not in sep and "\n" not in trail
+            blank_sep = True        # since fix 6a41e04 line breaks are white space for .r as well
             what = {"kind": "repeated .r on one channel", "value": " ; ".join(show(h, 60) for h in held), "separator": sep, "file_text": text,
                     "read_back": [show(b, 60) for b in backs], "error": r["err"]}
             if blank_sep:
@@ -1245,7 +1425,7 @@ def run(tier, replay=None):
     if b:
         bad_corrs.append(b)
     for fn in (lambda: check_roundtrip(chk, impl, rng), lambda: check_files(chk, impl, rng), lambda: check_channel(chk, impl, rng),
-               lambda: check_form(chk, impl)):
+               lambda: check_form(chk, impl), lambda: check_form_matrix(chk, impl)):
         bp, bc = fn()
         if bp:
             bad_props.append(bp)
